@@ -50,6 +50,14 @@ var RacyFields = map[string]bool{
 	// proc/redis: the service configuration is swapped by a plain pointer write (config.Update) while request
 	// goroutines read it (directly or through the promoted getters of the embedded *service.Config)
 	"config.Config": true,
+	// proc/tcp: configuration pointer and balancer are replaced by plain writes in OnSvcConfigUpdate while
+	// HandleConn/dial of every connection read them
+	"tcpProc.cfg": true,
+	"tcpProc.lb":  true,
+	// config -> controller: a SvcAddEvent carries the store's own endpoint slice; the store keeps modifying the
+	// backing array in place (under its lock) while the controller reads the event's slice (without it)
+	"serviceWrapper.Endpoints": true,
+	"SvcAddEvent.Endpoints":    true,
 }
 
 // Result of instrumenting one package.
